@@ -242,6 +242,7 @@ func c03Body(d c03Desc, tier string) func() {
 				{I64: math.MaxInt64, U64: math.MaxUint64, F: 1.5, S: "é\x00😀\"", B: true, P: &one, M: map[string]int64{"": math.MinInt64, "k": 9007199254740993}, A: []string{"", "x"}, N: &struct{ X int64 }{-9007199254740993}},
 				{I64: math.MinInt64, F: -1e300, M: map[string]int64{}, A: []string{}},
 				{F: 5e-324}, {F: math.MaxFloat64}, {F: 0.1}, {F: 1e21}, {F: -0.0},
+				{S: `\u003c literal backslash-u, not an escape`, A: []string{`\n`, `\\`, `\"`, `\u0000`, "<>&", "\u2028\u2029"}, M: map[string]int64{`\u0026`: 1, "<": 2}},
 			}
 			for _, v := range vals {
 				echo.got = echo.got[:0]
